@@ -14,7 +14,7 @@ import (
 	hatypes "github.com/jcmoraisjr/haproxy-ingress/pkg/haproxy/types"
 )
 
-var c04Paths = []string{"/", "/app", "/app/", "/app1", "/app/sub", "/App", "/app/sub/x", "/ap", "/api", "/App/Sub", "/a/b/c/d", "/a/b/c", "/a/b", "/a"}
+var c04Paths = []string{"/", "/app", "/app/", "/app1", "/app/sub", "/App", "/app/sub/x", "/ap", "/api", "/App/Sub", "/a/b/c/d", "/a/b/c", "/a/b", "/a", "/a/a", "/a/c", "/app/other", "/x", "/x/y"}
 var c04Hosts = []string{"d1.local", "d2.local", "sub.d1.local", "d3.local"}
 
 func genC04(seed uint64, tier string) *RunConfig {
